@@ -1328,6 +1328,21 @@ class Interp:
                 return [(s, a)]
             x, y = sorted([a, b], key=repr)
             return [(s, ("call", name, (x, y), None))]
+        if krate == "core" and name in ("or_else", "and_then", "map", "map_err") and len(args) == 2 and isinstance(args[1], tuple) and args[1] and args[1][0] == "closure":
+            a = self.load_ref(s, args[0])
+            if isinstance(a, tuple) and a and a[0] == "adt" and a[1] == "core::result::Result":
+                is_ok = a[2] == 0
+                payload = dict(a[3]).get(0, ("tuple", ()))
+                if (name in ("or_else", "map_err") and is_ok) or (name in ("and_then", "map") and not is_ok):
+                    return [(s, a)]                       # the closure does not run
+                out = []
+                for (s2, v2) in self.call_closure(frame, s, args[1], [payload]):
+                    if name == "map":
+                        v2 = ("adt", "core::result::Result", 0, ((0, v2),))
+                    elif name == "map_err":
+                        v2 = ("adt", "core::result::Result", 1, ((0, v2),))
+                    out.append((s2, v2))
+                return out
         if krate == "core" and name == "and" and len(args) == 2:
             # Result::and / Option::and: the argument has already been evaluated (eagerly) when we get here
             a, b2 = self.load_ref(s, args[0]), self.load_ref(s, args[1])
